@@ -545,6 +545,11 @@ impl<'a> Explorer<'a> {
                 l.stats.class("panic");
                 if cap >= min {
                     self.vio(l, "C06", "panic", format!("call panicked with capacity {} >= minimum {}: {}", cap, min, m), id, &call);
+                    if or.encoding_used && cfg.bom != BomMode::Off {
+                        // BOM handling must work for any split: a panic while bytes are (or were just)
+                        // withheld means they are not delivered at all
+                        self.vio(l, "C10", "panic", format!("BOM-handling decoder panicked with capacity {} >= minimum {}: {}", cap, min, m), id, &call);
+                    }
                 }
                 return;
             }
